@@ -68,7 +68,7 @@ def transitions(rows, init):
     for a, b in zip(rows, rows[1:]):
         if b[0] == a[0] + 1 and a[1:] != b[1:]:
             out.append((b[0],) + b[1:])
-    return init, out
+    return out
 
 
 def build_oracle(db, outdir):
@@ -91,9 +91,25 @@ def build_oracle(db, outdir):
     with open(path, 'w') as f:
         for n in order:
             init = state_at(os.path.join(zdir, n), 915148800)     # 1999-01-01T00:00:00Z
-            _, tr = transitions(zdump(zdir, n), init)
+            tr = transitions(zdump(zdir, n), init)
             f.write('Z %s %d %d %d %s\n' % (n, len(tr), init[0], init[1], init[2]))
             for (t, off, dst, ab) in tr:
                 f.write('T %d %d %d %s\n' % (t - EPOCH_2000, off, dst, ab))
             ntr += len(tr)
     return dict(zones=len(order), transitions=ntr, path=path, zic_warnings=warnings[:500], source=src)
+
+
+def oracle_for_source(src, outdir, zones, tag='src'):
+    """zic + zdump on an arbitrary TZ source file for the given zone names; returns [(name, segs)] like pyzones.load_oracle"""
+    zdir = os.path.join(outdir, tag + '_zic')
+    os.makedirs(zdir, exist_ok=True)
+    r = subprocess.run(['/usr/sbin/zic', '-b', 'fat', '-d', zdir, src], capture_output=True, text=True)
+    if r.returncode != 0:
+        raise RuntimeError('zic rejected the source: ' + r.stderr[-1500:])
+    out = []
+    for n in zones:
+        init = state_at(os.path.join(zdir, n), 915148800)
+        tr = transitions(zdump(zdir, n), init)
+        segs = [(-(1 << 60), init[0], init[1], init[2])] + [(t - EPOCH_2000, off, dst, ab) for (t, off, dst, ab) in tr]
+        out.append((n, segs))
+    return out
